@@ -102,7 +102,8 @@ Fixpoint reply_eqb (a b : reply) : bool :=
    the reference with the deviations of the current implementation that could not be repaired
    because tests of the repository pin them (known findings C01-getset-keeps-ttl and
    C01-getrange-negative-order); it is what the correspondence check runs.  The two dialects
-   differ only on the class [known_dev] below; every theorem is proved for both. *)
+   differ only on the class [known_dev] below; every theorem is proved for both.  (AsBuilt also
+   accepts, like the executor, the SET / EXPIRE flag sets that only the parsers refuse.) *)
 Inductive dialect := Redis | AsBuilt.
 
 (* ------------------------------------------------------------------ integers <-> decimal text *)
@@ -899,14 +900,18 @@ Definition tag (c : cmd) : string :=
 Definition nonnil {A} (l : list A) : bool := match l with [] => false | _ => true end.
 
 (* what the Redis grammar accepts: [None], or the error the command is refused with *)
-Definition cmd_reject (c : cmd) : option ekind :=
+Definition cmd_reject (dl : dialect) (c : cmd) : option ekind :=
   match c with
   | SetC _ _ x nx xx _ =>
-      if nx && xx then Some ESyntax
+      (* as built, the executor leaves NX+XX to the parsers (which refuse it) and, handed such a
+         command value directly, evaluates NX then XX: nothing is ever written *)
+      if nx && xx && match dl with Redis => true | AsBuilt => false end then Some ESyntax
       else match x with XPersist => Some ESyntax | _ => None end
   | GetEx _ x => match x with XKeepTtl => Some ESyntax | _ => None end
   | Expire _ _ nx xx gt lt | PExpire _ _ nx xx gt lt =>
-      if (nx && (xx || gt || lt)) || (gt && lt) then Some ESyntax else None
+      (* likewise left to the parsers; as built the flags are evaluated in the order NX XX GT LT *)
+      if ((nx && (xx || gt || lt)) || (gt && lt)) && match dl with Redis => true | AsBuilt => false end
+      then Some ESyntax else None
   | ZAdd _ ps nx xx gt lt _ =>
       if negb (nonnil ps) then Some EArity
       else if (nx && xx) || (gt && lt) || (nx && (gt || lt)) then Some ESyntax else None
@@ -1040,7 +1045,7 @@ Definition exec_wf (dl : dialect) (s : state) (now : N) (c : cmd) : state * repl
 
 (* one command at clock reading [now] *)
 Definition exec (dl : dialect) (s : state) (now : N) (c : cmd) : state * reply :=
-  match cmd_reject c with
+  match cmd_reject dl c with
   | Some e => (s, RErr e)
   | None => exec_wf dl s now c
   end.
@@ -1056,6 +1061,10 @@ Definition known_dev (s : state) (c : cmd) : bool :=
       | Some (VStr (_ :: _), _) => (a <? 0) && (b <? 0) && (a >? b)
       | _ => false
       end
+  (* flag sets only the parsers refuse (not reachable from a client): SET NX XX,
+     EXPIRE/PEXPIRE with NX and XX/GT/LT or with GT and LT *)
+  | SetC _ _ _ nx xx _ => nx && xx
+  | Expire _ _ nx xx gt lt | PExpire _ _ nx xx gt lt => (nx && (xx || gt || lt)) || (gt && lt)
   | _ => false
   end.
 
